@@ -87,7 +87,7 @@ def run(ck):
         trace = os.path.join(ck.work, f"plushy-trace-{sh}.ndjson")
         per = runs // shards
         ck.harness(["plushy-trace", "--seed", ck.seed, "--runs", per, "--first-run", sh * per,
-                    "--maxlen", 200, "--out", trace])
+                    "--maxlen", 200, "--long", 0 if q or sh else 2, "--out", trace])
         ck.validate_runs("plushy/Trace_Plushy", "plushy/Trace_Plushy.cfg", trace, sig_trace,
                          what_trace, regen=lambda ev: {"seed": ck.seed, "run": ev["run"]},
                          timeout=2400)
@@ -116,7 +116,7 @@ def replay(ck, obj):
         r = obj["regen"]
         trace = os.path.join(ck.work, "one-trace.ndjson")
         ck.harness(["plushy-trace", "--seed", r["seed"], "--runs", 1, "--first-run", r["run"],
-                    "--maxlen", 200, "--out", trace])
+                    "--maxlen", 200, "--long", 0 if ck.tier == "quick" else 2, "--out", trace])
         ck.validate_runs("plushy/Trace_Plushy", "plushy/Trace_Plushy.cfg", trace, sig_trace, what_trace)
     else:
         ck.harness(["num-opens", "--out", os.path.join(ck.work, "t.ndjson")])
